@@ -16,10 +16,15 @@ import (
 type c08Case struct {
 	Cfg        rolloutCfg `json:"cfg"`
 	SecondEdit int        `json:"secondEditAfterSyncs"` // -1: none
+	Edit       string     `json:"edit,omitempty"`       // "" = template change; scale-down, scale-up, template+scale-down, template+scale-up
 }
 
 func (c c08Case) id() string {
-	return fmt.Sprintf("c08-%s-%s-n%d-%s-fp%v-gs%v-cl%v-e%d", lower(c.Cfg.Kind), c.Cfg.Method, c.Cfg.N, c.Cfg.StatusCheck, c.Cfg.FieldPaths, c.Cfg.GenSel, c.Cfg.Cluster, c.SecondEdit)
+	id := fmt.Sprintf("c08-%s-%s-n%d-%s-fp%v-gs%v-cl%v-e%d", lower(c.Cfg.Kind), c.Cfg.Method, c.Cfg.N, c.Cfg.StatusCheck, c.Cfg.FieldPaths, c.Cfg.GenSel, c.Cfg.Cluster, c.SecondEdit)
+	if c.Edit != "" {
+		id += "-" + c.Edit
+	}
+	return id
 }
 
 func TestVerif_C08_Progress(t *testing.T) {
@@ -36,6 +41,15 @@ func TestVerif_C08_Progress(t *testing.T) {
 						for n := 1; n <= maxN; n++ {
 							cfg := rolloutCfg{Kind: kind, Method: method, N: n, StatusCheck: check, FieldPaths: fp, GenSel: gs}
 							cases = append(cases, c08Case{Cfg: cfg, SecondEdit: -1})
+							if n >= 2 && n <= 3 && (check == "" || sim.Thorough()) {
+								// the revisioned change also changes the set of children
+								for _, ed := range []string{"scale-down", "scale-up", "template+scale-down", "template+scale-up"} {
+									cases = append(cases, c08Case{Cfg: cfg, SecondEdit: -1, Edit: ed})
+									if sim.Thorough() || ed == "template+scale-down" {
+										cases = append(cases, c08Case{Cfg: cfg, SecondEdit: 2, Edit: ed})
+									}
+								}
+							}
 							if n <= 3 {
 								for e := 0; e <= 2*n+2; e++ {
 									if !sim.Thorough() && e%2 == 1 {
@@ -145,7 +159,30 @@ func runC08(t *testing.T, c c08Case) {
 		}
 		return true
 	}
-	ro.newRev()
+	switch c.Edit {
+	case "":
+		ro.newRev()
+	case "scale-down":
+		ro.scale(-1)
+	case "scale-up":
+		ro.scale(1)
+	case "template+scale-down":
+		ro.editParent(func() {
+			if ro.cfg.FieldPaths {
+				ro.revN++
+				ro.r.rev = fmt.Sprintf("r%d", ro.revN+1)
+			}
+			ro.r.kids = ro.r.kids[:len(ro.r.kids)-1]
+		})
+	case "template+scale-up":
+		ro.editParent(func() {
+			if ro.cfg.FieldPaths {
+				ro.revN++
+				ro.r.rev = fmt.Sprintf("r%d", ro.revN+1)
+			}
+			ro.r.kids = append(ro.r.kids, kidCfg{Kind: ro.cfg.Kind, Name: fmt.Sprintf("c%d-%s", len(ro.r.kids)+ro.revN+ro.extN+10, ro.sc.ID), Value: "v1"})
+		})
+	}
 	ok := runEdit("first edit", c.SecondEdit)
 	rep.Counter("C08", "syncs_judged", int64(ro.syncs))
 	rep.Counter("C08", "moves_observed", int64(ro.moves))
